@@ -448,6 +448,10 @@ func runH1(t *testing.T, prog *hx.Program, dec *simrt.Decider, verbose bool, bod
 		Verbose:    verbose,
 		TraceSteps: verbose && os.Getenv("VERIF_TRACE_STEPS") != "",
 		Profile:    os.Getenv("VERIF_PROFILE") != "",
+		// time passing while tasks are runnable: the log's own timers (cleaner tick with its age-based roll,
+		// HW checkpoint) then fire in the middle of appends, truncations, cleans and reads
+		TimeSkipPerMille: int(prog.Param("timeskip", 0)),
+		TimeSkipMax:      time.Duration(prog.Param("skipmax_ms", 30000)) * time.Millisecond,
 	}
 	var s *simrt.Sim
 	problem := simrt.RunBubble(t, func() {
